@@ -87,7 +87,8 @@ FLAVOURS = [
     {"depth": 1, "pb": 0.2, "p_attach": 0.12, "p_detach": 0.04, "p_reserved": 0.02,
      "data_weights": {"set_dataset": 5, "delete": 4, "move": 4, "copy": 2, "create_group": 1.5, "set_attr": 1.5, "del_attr": 0.5,
                       "require_group": 0}},                                                # few paths, rewritten over and over
-    {"p_attach": 0.38, "attach_deep_datasets": 0.7, "restructure_groups_with_meta": 0.6, "p_detach": 0.04, "p_reserved": 0.02,
+    {"p_attach": 0.38, "attach_deep_datasets": 0.7, "restructure_groups_with_meta": 0.6, "resurrect_annotated": 0.35,
+     "p_detach": 0.04, "p_reserved": 0.02,
      "data_weights": {"copy": 6, "move": 6, "set_dataset": 5, "create_group": 2, "delete": 1.5, "set_attr": 0.5, "del_attr": 0.2}},
     # metadata on datasets inside groups, then the groups are copied / moved
 ]
